@@ -484,7 +484,6 @@ def run(ctx):
         _L.coqchk(ctx, ["Pq.Proofs.RejectProofs"])
     C.use_shadow()
     C.pqref()
-    import multiprocessing as mp
     rng = ctx.rng
     variants = all_variants()
     ctx.rule = ("scenario = existing dataset (single file / hive / hive partitioned on 1 or 2 columns / drill; 1..3 row groups) x kind of refusal "
@@ -505,9 +504,22 @@ def run(ctx):
             sc = json.load(open(os.path.join(cdir, f)))["scenario"]
             sc["id"] = 100000 + i
             scs.insert(0, sc)
-    with mp.get_context("fork").Pool(8 if ctx.quick() else 12) as pool:
-        results = pool.map(run_scenario, [(sc, ctx.scratch) for sc in scs], chunksize=4)
+    results = C.pmap(run_scenario, [(sc, ctx.scratch) for sc in scs], nproc=8 if ctx.quick() else 12, job_timeout=180)
     by_id = {sc["id"]: sc for sc in scs}
+    # a scenario whose worker process crashed (segfault / abort in native code) or hung is a failing input of its own
+    ncr = 0
+    for sc, r in zip(scs, results):
+        if isinstance(r, dict) and "__crashed__" in r:
+            ncr += 1
+            v = sc["variant"]
+            if ncr <= 5:
+                ctx.fail({"component": "write_simple.append" if v["state"] == "simple" else "write_multi", "symptom": "process-crashed-or-hung",
+                          "kind": v["kind"], "expect": v["expect"], "state": v["state"]},
+                         {"scenario": sc, "observed": r["__crashed__"]},
+                         "building the dataset, the call or the read-back kills or hangs the process: %s" % r["__crashed__"])
+    keep = [i for i, r in enumerate(results) if not (isinstance(r, dict) and "__crashed__" in r)]
+    scs = [scs[i] for i in keep]
+    results = [results[i] for i in keep]
     cmds, meta = [], []
     orphans = 0
     for res in results:
@@ -607,7 +619,11 @@ def replay(rep):
     sc = rep["case"]["scenario"]
     tmp = tempfile.mkdtemp(prefix="verif-C18-replay-", dir="/tmp")
     try:
-        res = run_scenario((sc, tmp))
+        res = C.pmap(run_scenario, [(sc, tmp)], nproc=1, job_timeout=300)[0]       # in a child: a crash is an observation
+        if "__crashed__" in res:
+            print("scenario: %s" % sc["variant"])
+            print("PROPERTY FAILS: process-crashed-or-hung: %s" % res["__crashed__"])
+            return 1
         if res["error"]:
             print(res["error"])
             return 1
